@@ -158,7 +158,8 @@ func runGCase(gc GCase) (*Fail, []string, map[string]int, error) {
 	tr := func(f string, a ...interface{}) { trace = append(trace, fmt.Sprintf(f, a...)) }
 	created := false
 	snapN := 0
-	mode := "" // model: INIT after open until set
+	mode := ""          // model: INIT after open until set
+	rebuilding := false // model: the persisted rebuilding flag (set/cleared only by an accepted set-rebuilding)
 	isOpen := func() bool { return n.S.Replica() != nil }
 	for oi, op := range gc.Ops {
 		before := observe(n)
@@ -200,6 +201,9 @@ func runGCase(gc GCase) (*Fail, []string, map[string]int, error) {
 		case "rebuilding":
 			err := n.S.SetRebuilding(op.On)
 			tr("#%d setrebuilding %v -> %v", oi, op.On, err)
+			if err == nil {
+				rebuilding = op.On
+			}
 			if !isOpen() && err == nil {
 				return fail("setrebuilding|closed|accepted", "SetRebuilding succeeded on a closed replica", "C17"), trace, labels, nil
 			}
@@ -353,6 +357,12 @@ func runGCase(gc GCase) (*Fail, []string, map[string]int, error) {
 					return fail("rest|"+op.Str+"|state="+rstate+"|not-advertised-side-effect", fmt.Sprintf("action %s is not advertised in state %s, was refused, but %s", op.Str, rstate, d), "C17"), trace, labels, nil
 				}
 			}
+			if op.Str == "setrebuilding" && resp.StatusCode == 200 {
+				rebuilding = true // the body sent is {"rebuilding":true}
+			}
+			if (op.Str == "create" || op.Str == "updatecloneinfo") && resp.StatusCode == 200 && before.State == "initial" {
+				rebuilding = false
+			}
 			// follow externally visible transitions for the model
 			if !isOpen() {
 				mode = ""
@@ -365,6 +375,20 @@ func runGCase(gc GCase) (*Fail, []string, map[string]int, error) {
 		}
 		if m := takeFatal(); m != "" {
 			return fail("gate|"+op.K+"|process-exit", m, "C17", "C14"), trace, labels, nil
+		}
+		// the state a replica reports is what gates its REST actions: while the
+		// rebuilding flag is set an open replica is "rebuilding", whatever else is true
+		if isOpen() {
+			st, info := n.S.Status()
+			if info.Rebuilding != rebuilding {
+				return fail("state|rebuilding-flag|after="+op.K, fmt.Sprintf("rebuilding flag is %v, expected %v after %s", info.Rebuilding, rebuilding, op.K), "C17", "C07"), trace, labels, nil
+			}
+			if rebuilding && string(st) != "rebuilding" {
+				return fail("state|rebuilding-reported-as-"+string(st), fmt.Sprintf("the replica is rebuilding but reports state %q (after %s): actions that are not valid during a rebuild become available", st, op.K), "C17", "C07"), trace, labels, nil
+			}
+			if rebuilding {
+				labels["state:rebuilding-observed"]++
+			}
 		}
 	}
 	_ = mode
